@@ -6,6 +6,7 @@
          if server.transport_kind is None:                    Test      -- OUTSIDE the lock
              server._notify_transport(HTTP, frozenset())
      vgi_rpc/rpc/_server.py   RpcServer.serve(transport)       -> _notify_transport(kind of transport, caps), always
+         (PipeTransport -> (pipe, {}), UnixTransport -> (unix, {}), ShmPipeTransport -> (pipe, {"shm"}))
      vgi_rpc/rpc/_server.py   RpcServer._notify_transport(kind, caps)
          with self._transport_lock:                            Acquire
              if (kind, caps) already recorded: return          Recheck
@@ -25,6 +26,14 @@
        HookEnd(t)   hook  -> start|done   + Dispatch    hook returned: commit, release, dispatch
                     hook  -> start|done                 hook raised: release, nothing recorded, the request fails
 
+   A *binding* is the recorded pair (kind, capabilities) -- _notify_transport is idempotent for the same pair and
+   re-fires the hook for a different one (the repository's documented reading of "per binding"; the statement
+   only speaks of kinds).  Binding values here: "http", "pipe", "unix", "pipe+shm"; the hook of "pipe+shm" is
+   called with kind pipe.
+   Begin(t) of an HTTP thread stands for a request on ANY RPC route (unary call, stream init, stream continuation
+   arriving first on a cold worker): the middleware test is route-independent, the driver concretises every
+   abstract request with each route.
+
    variant = "design" is the code as written.  The other variants are deliberately wrong designs; TLC must find
    the clauses falsified there (vacuity guard, see Vacuity):
        "commit-first"    records the binding before running the hook (and leaves it when the hook raises)
@@ -38,15 +47,17 @@ EXTENDS Naturals, FiniteSets, Sequences, TLC, Json
 CONSTANTS Reqs,        \* HTTP request threads                          e.g. {"r1","r2"}
           PipeSrvs,    \* threads calling serve(PipeTransport)           e.g. {"s1"}
           UnixSrvs,    \* threads calling serve(UnixTransport)           e.g. {"s2"}
+          ShmSrvs,     \* threads calling serve(ShmPipeTransport)        e.g. {"m1","m2"}   binding "pipe+shm"
           MaxReqs,     \* requests per HTTP thread (set of values explored)
-          HookModes,   \* subset of {"ok","once","always"}  the hook succeeds / raises on its first call / always raises
+          HookModes,   \* subset of {"ok","once","second","always"}: the hook succeeds / raises on its first call only /
+                       \* raises on its second call only (a failing RE-bind when the first bind succeeded) / always raises
           Variants     \* subset of the variants above
 
 None == "none"
-Srvs == PipeSrvs \cup UnixSrvs
+Srvs == PipeSrvs \cup UnixSrvs \cup ShmSrvs
 Threads == Reqs \cup Srvs
-Kinds == {"http", "pipe", "unix"}
-KindOf(t) == IF t \in Reqs THEN "http" ELSE IF t \in PipeSrvs THEN "pipe" ELSE "unix"
+Kinds == {"http", "pipe", "unix", "pipe+shm"}          \* binding values (kind + capabilities)
+KindOf(t) == IF t \in Reqs THEN "http" ELSE IF t \in PipeSrvs THEN "pipe" ELSE IF t \in UnixSrvs THEN "unix" ELSE "pipe+shm"
 
 VARIABLES variant, hookMode, maxReq,
           bound,       \* the recorded binding (RpcServer.transport_kind), None before the first commit
@@ -124,7 +135,7 @@ Lock(t) ==
           /\ UNCHANGED <<nops, outcome, poisoned, bad>>
   /\ UNCHANGED <<params, unboundAtStart>>
 
-Raises(t) == hookMode = "always" \/ (hookMode = "once" /\ callNo[t] = 1)
+Raises(t) == \/ hookMode = "always" \/ (hookMode = "once" /\ callNo[t] = 1) \/ (hookMode = "second" /\ callNo[t] = 2)
 
 HookEnd(t) ==
   /\ pc[t] = "hook"
